@@ -54,5 +54,14 @@ class DateTime(Parseable[datetime]):
             when = self.value
             raw_str = '%s%04d%s' % (when.strftime('%d-%b-'), when.year,
                                     when.strftime(' %X %z'))
+            offset = when.utcoffset()
+            if offset is not None:
+                # the zone is a sign and four digits: strftime('%z') adds
+                # the seconds of an offset that has them
+                minutes = int(offset.total_seconds() // 60)
+                raw_str = '%s%s%02d%02d' % (
+                    raw_str[:raw_str.rindex(' ') + 1],
+                    '-' if minutes < 0 else '+',
+                    abs(minutes) // 60, abs(minutes) % 60)
             self._raw = bytes(raw_str, 'ascii')
         return BytesFormat(b'"%b"') % (self._raw, )
